@@ -35,3 +35,34 @@ package types
 //@ func (msg MsgWithdrawAllAvailable) ValidateBasic() (r0)
 //@   requires msg != nil
 //@   prop C20
+
+//@ // ---- C12: vesting-type periods survive the unit conversion of genesis export and import ----
+//@ spec func unitNs(u str) int = u == "day" ? 86400000000000 : (u == "hour" ? 3600000000000 : (u == "minute" ? 60000000000 : (u == "second" ? 1000000000 : 0)))
+//@ pred knownUnit(u) = u == "day" || u == "hour" || u == "minute" || u == "second"
+//@ func DurationFromUnits(unit, value) (d, err)
+//@   // Go's int64 multiplication wraps silently: the product must fit (it does for every exported genesis, see UnitsFromDuration)
+//@   requires knownUnit(unit) ==> -maxInt64 <= unitNs(unit) * value && unitNs(unit) * value <= maxInt64
+//@   ensures (err == nil) == knownUnit(unit)
+//@   ensures err == nil ==> d == unitNs(unit) * value
+//@   prop C12
+//@ func UnitsFromDuration(duration) (unit, value)
+//@   ensures knownUnit(unit)
+//@   // a whole number of seconds is represented exactly (so DurationFromUnits gives it back, without overflow)
+//@   ensures duration % 1000000000 == 0 ==> unitNs(unit) * value == duration
+//@   prop C12
+//@ func ConvertVestingTypesToGenesisVestingTypes(vestingTypes) (res)
+//@   requires vestingTypes != nil
+//@   requires forall i: int :: {vestingTypes.VestingTypes[i]} 0 <= i && i < len(vestingTypes.VestingTypes) ==> vestingTypes.VestingTypes[i] != nil
+//@   ensures len(res) == len(vestingTypes.VestingTypes)
+//@   ensures forall i: int :: {res[i].Name} 0 <= i && i < len(res) ==> res[i].Name == vestingTypes.VestingTypes[i].Name && res[i].Free == vestingTypes.VestingTypes[i].Free
+//@     && knownUnit(res[i].LockupPeriodUnit) && knownUnit(res[i].VestingPeriodUnit)
+//@     && (vestingTypes.VestingTypes[i].LockupPeriod % 1000000000 == 0 ==> unitNs(res[i].LockupPeriodUnit) * res[i].LockupPeriod == vestingTypes.VestingTypes[i].LockupPeriod)
+//@     && (vestingTypes.VestingTypes[i].VestingPeriod % 1000000000 == 0 ==> unitNs(res[i].VestingPeriodUnit) * res[i].VestingPeriod == vestingTypes.VestingTypes[i].VestingPeriod)
+//@   prop C12
+//@ loop ConvertVestingTypesToGenesisVestingTypes#1
+//@   invariant 0 <= \i && \i <= len(vestingTypes.VestingTypes) && len(gVestingTypes) == \i && off(gVestingTypes) == 0
+//@   invariant forall i: int :: {gVestingTypes[i].Name} 0 <= i && i < \i ==> gVestingTypes[i].Name == vestingTypes.VestingTypes[i].Name && gVestingTypes[i].Free == vestingTypes.VestingTypes[i].Free
+//@     && knownUnit(gVestingTypes[i].LockupPeriodUnit) && knownUnit(gVestingTypes[i].VestingPeriodUnit)
+//@     && (vestingTypes.VestingTypes[i].LockupPeriod % 1000000000 == 0 ==> unitNs(gVestingTypes[i].LockupPeriodUnit) * gVestingTypes[i].LockupPeriod == vestingTypes.VestingTypes[i].LockupPeriod)
+//@     && (vestingTypes.VestingTypes[i].VestingPeriod % 1000000000 == 0 ==> unitNs(gVestingTypes[i].VestingPeriodUnit) * gVestingTypes[i].VestingPeriod == vestingTypes.VestingTypes[i].VestingPeriod)
+
